@@ -10,10 +10,12 @@ package c23
 import (
 	"context"
 	"encoding/json"
+	"errors"
 	"fmt"
 	"io"
 	"net"
 	"os"
+	"strconv"
 	"sync"
 	"testing"
 	"testing/synctest"
@@ -26,12 +28,14 @@ import (
 	"google.golang.org/grpc/credentials/insecure"
 	"google.golang.org/grpc/internal/zzverif/vlib"
 	"google.golang.org/grpc/internal/zzverif/vlib/rawh2"
+	"google.golang.org/grpc/metadata"
 	"google.golang.org/grpc/status"
 	"google.golang.org/grpc/test/bufconn"
 )
 
 type scenario struct {
 	Mode   string   `json:"mode"`   // unary | stream
+	Cause  bool     `json:"cause"`  // the RPC's context ends with a custom cause (WithCancelCause / WithTimeoutCause)
 	Script []string `json:"script"` // pre, server faults..., final
 }
 
@@ -42,6 +46,9 @@ type env struct {
 	ops      []string // server-side ops still to apply to /verif/main streams
 	conns    []net.Conn
 	killed   bool
+	badmd    bool            // the next pick result for the main RPC carries invalid metadata
+	mainCtx  context.Context // the main RPC's context (read by the real-time watchdog)
+	mainRet  bool            // the main RPC has returned
 	timeouts int
 	gate     chan struct{} // closed = dialing allowed
 	reached  chan string
@@ -117,9 +124,15 @@ func (p *tagPicker) Pick(info balancer.PickInfo) (balancer.PickResult, error) {
 	e.mu.Lock()
 	e.nextID++
 	id := e.nextID
-	e.events = append(e.events, map[string]any{"ev": "pick", "id": id, "rpc": info.FullMethodName[len("/verif/"):], "hasdone": true})
+	rpc := info.FullMethodName[len("/verif/"):]
+	md := metadata.Pairs("verif-pick", strconv.Itoa(id)) // valid pick metadata is the normal case
+	if e.badmd && rpc == "main" {
+		e.badmd = false
+		md = metadata.MD{"Verif-Bad-Key": {"x"}} // upper case: cannot be sent
+	}
+	e.events = append(e.events, map[string]any{"ev": "pick", "id": id, "rpc": rpc, "hasdone": true, "badmd": len(md["Verif-Bad-Key"]) > 0})
 	e.mu.Unlock()
-	return balancer.PickResult{SubConn: p.sc, Done: func(di balancer.DoneInfo) {
+	return balancer.PickResult{SubConn: p.sc, Metadata: md, Done: func(di balancer.DoneInfo) {
 		code := 0
 		if di.Err != nil {
 			code = int(status.Code(di.Err))
@@ -257,7 +270,7 @@ func runScenario(scn *scenario) (evs []map[string]any, timeouts int) {
 	}()
 	pre, final := scn.Script[0], scn.Script[len(scn.Script)-1]
 	e.ops = append([]string(nil), scn.Script[1:]...)
-	e.log(map[string]any{"ev": "scn", "mode": scn.Mode, "script": scn.Script})
+	e.log(map[string]any{"ev": "scn", "mode": scn.Mode, "cause": scn.Cause, "script": scn.Script})
 	go rawh2.Serve(e.lis, e.serveConn)
 	cc, err := grpc.NewClient("passthrough:///c23", grpc.WithTransportCredentials(insecure.NewCredentials()),
 		grpc.WithContextDialer(e.dial), grpc.WithDefaultServiceConfig(serviceConfig),
@@ -273,7 +286,11 @@ func runScenario(scn *scenario) (evs []map[string]any, timeouts int) {
 	var bcancel context.CancelFunc
 	var bdone chan struct{}
 	switch pre {
-	case "notready":
+	case "badmd":
+		e.mu.Lock()
+		e.badmd = true
+		e.mu.Unlock()
+	case "notready", "blocked":
 		// the connection dies and the reconnection is held: the published picker's subchannel is not READY
 		e.mu.Lock()
 		e.gate = make(chan struct{})
@@ -297,10 +314,22 @@ func runScenario(scn *scenario) (evs []map[string]any, timeouts int) {
 		synctest.Wait()
 	}
 
-	ctx, cancel := context.WithCancel(context.Background())
-	if final == "deadline" {
+	var ctx context.Context
+	var cancel func()
+	switch {
+	case scn.Cause && final == "deadline":
+		ctx, cancel = context.WithTimeoutCause(context.Background(), 5*time.Second, errors.New("verif: custom deadline cause"))
+	case scn.Cause:
+		c, cc := context.WithCancelCause(context.Background())
+		ctx, cancel = c, func() { cc(errors.New("verif: custom cancel cause")) }
+	case final == "deadline":
 		ctx, cancel = context.WithTimeout(context.Background(), 5*time.Second)
+	default:
+		ctx, cancel = context.WithCancel(context.Background())
 	}
+	e.mu.Lock()
+	e.mainCtx = ctx
+	e.mu.Unlock()
 	mdone := make(chan struct{})
 	go func() {
 		defer close(mdone)
@@ -326,6 +355,9 @@ func runScenario(scn *scenario) (evs []map[string]any, timeouts int) {
 				}
 			}
 		}
+		e.mu.Lock()
+		e.mainRet = true
+		e.mu.Unlock()
 		e.log(map[string]any{"ev": "rpc_ret", "rpc": "main", "code": int(status.Code(err))})
 	}()
 	synctest.Wait()
@@ -339,7 +371,12 @@ func runScenario(scn *scenario) (evs []map[string]any, timeouts int) {
 		// main holds a pick result and is blocked in NewStream on the stream quota: close the transport
 		e.kill()
 	}
-	if final == "cancel_before" || final == "cancel_after" {
+	if pre == "blocked" {
+		// main has picked the not-READY subchannel (Done at once) and is blocked in pick; no picker will come
+		if final == "cancel_before" {
+			cancel()
+		}
+	} else if final == "cancel_before" || final == "cancel_after" {
 		select {
 		case <-e.reached:
 			synctest.Wait()
@@ -349,6 +386,11 @@ func runScenario(scn *scenario) (evs []map[string]any, timeouts int) {
 	}
 	e.await(mdone, cancel, "main")
 	cancel()
+	if pre == "blocked" {
+		e.mu.Lock()
+		close(e.gate)
+		e.mu.Unlock()
+	}
 	synctest.Wait()
 	e.log(map[string]any{"ev": "rpc_end", "rpc": "main"})
 	if bcancel != nil {
@@ -379,7 +421,7 @@ func TestVerifC23Scenarios(t *testing.T) {
 		t.Fatal(err)
 	}
 	defer tr.Close()
-	picks, failed := 0, 0
+	picks, failed, stuck := 0, 0, 0
 	codes := map[string]int{}
 	for i, ln := range lines {
 		var scn scenario
@@ -387,19 +429,37 @@ func TestVerifC23Scenarios(t *testing.T) {
 			t.Fatal(err)
 		}
 		var ev []map[string]any
-		func() {
+		// Real-time watchdog: a goroutine that spins (e.g. a pick that is woken by its context but
+		// neither returns nor blocks) never lets the bubble settle; such a scenario is abandoned
+		// after 30 s of real time and recorded as `stuck` (with whether the RPC's context had ended).
+		var bev []map[string]any
+		fin := make(chan struct{})
+		go func() {
+			defer close(fin)
 			defer func() {
 				if x := recover(); x != nil {
 					failed++
-					ev = append(ev, map[string]any{"ev": "note", "msg": fmt.Sprintf("bubble panic: %v", x)})
+					bev = append(bev, map[string]any{"ev": "note", "msg": fmt.Sprintf("bubble panic: %v", x)})
 				}
 			}()
 			synctest.Test(t, func(*testing.T) {
 				var n int
-				ev, n = runScenario(&scn)
+				bev, n = runScenario(&scn)
 				failed += n
 			})
 		}()
+		select {
+		case <-fin:
+			ev = bev
+		case <-time.After(30 * time.Second):
+			e := cur
+			e.mu.Lock()
+			ev = append([]map[string]any(nil), e.events...)
+			ended := e.mainCtx != nil && e.mainCtx.Err() != nil
+			ev = append(ev, map[string]any{"ev": "stuck", "rpc": "main", "ended": ended, "returned": e.mainRet})
+			e.mu.Unlock()
+			stuck++
+		}
 		tr.Emit(map[string]any{"ev": "reset", "b": i})
 		for _, x := range ev {
 			tr.Emit(x)
@@ -412,7 +472,10 @@ func TestVerifC23Scenarios(t *testing.T) {
 				}
 			}
 		}
+		if stuck > 0 {
+			break // a goroutine of the abandoned bubble may still be spinning: stop here
+		}
 	}
-	sum, _ := json.Marshal(map[string]any{"scenarios": len(lines), "picks": picks, "bubble_failures": failed, "main_codes": codes})
+	sum, _ := json.Marshal(map[string]any{"scenarios": len(lines), "picks": picks, "bubble_failures": failed, "stuck": stuck, "main_codes": codes})
 	fmt.Printf("VERIF_SUMMARY %s\n", sum)
 }
